@@ -50,16 +50,23 @@ func CheckPackageOnly(
 		reportedTypes := make(map[string]bool)
 		context.reportedTypes = &reportedTypes
 
+		// Identifiers that are the selected name of a selector expression are judged with that expression
+		selected := make(map[*ast.Ident]bool)
+
 		ast.Inspect(file, func(n ast.Node) bool {
 			switch node := n.(type) {
 			case *ast.SelectorExpr:
+				selected[node.Sel] = true
 				// Check selector expressions like "pkg.Type" or "pkg.Function"
 				if v := findSelectorExprViolation(&context, node); v != nil {
 					violations = append(violations, *v)
 				}
 
 			case *ast.Ident:
-				// Check identifier usage for local package objects
+				if selected[node] {
+					break
+				}
+				// Check identifier usage for local package objects and for names brought in by a dot import
 				if v := findIdentViolation(&context, node); v != nil {
 					violations = append(violations, *v)
 				}
@@ -162,23 +169,32 @@ func findIdentViolation(
 		}
 	}
 
-	// Only check local package objects (imports are handled by selector expressions)
-	if obj.Pkg() == nil || obj.Pkg().Path() != ctx.currentPkgPath {
+	// A bare identifier names an object of this package, or of a dot-imported one
+	// (qualified names are handled by selector expressions)
+	if obj.Pkg() == nil {
 		return nil
 	}
+	pkgPath := obj.Pkg().Path()
 
 	switch obj := obj.(type) {
 	case *types.TypeName:
-		return findTypeViolation(ctx, ctx.currentPkgPath, obj.Name(), ident.Pos())
+		if pkgPath != ctx.currentPkgPath {
+			obj = resolveTypeName(obj)
+			if obj.Pkg() == nil {
+				return nil
+			}
+			pkgPath = obj.Pkg().Path()
+		}
+		return findTypeViolation(ctx, pkgPath, obj.Name(), ident.Pos())
 
 	case *types.Func:
 		if obj.Type() != nil && obj.Type().(*types.Signature).Recv() != nil {
 			// Method
 			recvType := util.ExtractTypeName(obj.Type().(*types.Signature).Recv().Type())
-			return findMethodViolation(ctx, ctx.currentPkgPath, recvType, obj.Name(), ident.Pos())
+			return findMethodViolation(ctx, pkgPath, recvType, obj.Name(), ident.Pos())
 		} else {
 			// Function
-			return findFunctionViolation(ctx, ctx.currentPkgPath, obj.Name(), ident.Pos())
+			return findFunctionViolation(ctx, pkgPath, obj.Name(), ident.Pos())
 		}
 	}
 
